@@ -3,6 +3,8 @@ CONSTANTS
   NV = 3
   StabV = {}
   HasHf = FALSE
+  Cmds = {}
+  Rewrites = FALSE
   NP = 3
   UseQueue = FALSE
   SkipQueue = FALSE
